@@ -1,6 +1,7 @@
 import PartituraModel.Wire
 import PartituraModel.Model.Pedal
 import PartituraModel.Model.PedalDict
+import PartituraModel.Model.PedalTypes
 
 open Wire Model Model.Pedal
 
@@ -11,6 +12,22 @@ def pNote : P Note := do
 def pControl : P Control := do
   let nu ← int; let t ← rat; let v ← int; let tr ← opt int
   pure { number := nu, time := t, value := v, track := tr }
+
+def pKind : P PedalTypes.Kind := do
+  let k ← tok
+  match k with
+  | "I" => pure .int
+  | "F" => pure .flt
+  | _ => P.fail
+
+def pTNote : P PedalTypes.TNote := do
+  let p ← int; let on ← rat; let onK ← pKind; let off ← rat; let offK ← pKind; let v ← int; let tr ← int; let ch ← int
+  let ot ← opt int
+  pure { note := { pitch := p, on := on, off := off, vel := v, track := tr, chan := ch, onTick := ot }, onK := onK, offK := offK }
+
+def pTControl : P PedalTypes.TControl := do
+  let nu ← int; let t ← rat; let tK ← pKind; let v ← int; let tr ← opt int
+  pure { ctl := { number := nu, time := t, value := v, track := tr }, timeK := tK }
 
 def pPartTracks : P PartTracks := do
   let a ← list int; let b ← list (opt int); let c ← list (opt int)
@@ -127,6 +144,15 @@ def handle (ts : List String) : String :=
     -- np.argsort(keys, kind="stable")
     orErr <| (run (list rat) rest).map fun ks =>
       fmtList fmtNat ((sortBy (fun m : Rat × Nat => m.1) ks.zipIdx).map (·.2))
+  | "sot" :: rest =>
+    -- sound_off of every note after construction from typed dictionaries (round 4)
+    orErr <| (run (do let thr ← int; let ns ← list pTNote; let cs ← list pTControl; pure (thr, ns, cs)) rest).bind
+      fun (thr, ns, cs) => (PedalTypes.buildTyped ns cs thr).map fun so => fmtList fmtRat so
+  | "npstore" :: rest =>
+    -- a = np.array([numbers of the given kinds]); a[0] = x : the inferred dtype and the value the array then holds
+    orErr <| (run (do let ks ← list pKind; let x ← rat; pure (ks, x)) rest).map fun (ks, x) =>
+      let dt := PedalTypes.inferDtype ks
+      fmtTuple [(match dt with | .int => "I" | .flt => "F"), fmtRat (PedalTypes.store dt x)]
   | "so" :: rest =>
     -- sound_off of every note after construction
     orErr <| (run (do let thr ← int; let ns ← list pNote; let cs ← list pControl; pure (thr, ns, cs)) rest).bind
